@@ -28,8 +28,10 @@
    and destination-relative path of an entry are the same string, as in the code
    (filepath.Join(src, name) / filepath.Join(srcComponents, name) / filepath.Join(dst, name)).
 
-   Assumed, not modelled: options Chown / Mode / ModeStr / Utime / AlwaysReplaceExistingDestPaths
-   unset (C13/C15); no hard-link groups in the source (C13); timestamps are not represented at
+   AlwaysReplaceExistingDestPaths is the parameter [repl] (removeTargetIfNeeded AFTER
+   createParentDirs); the theorems are about repl = false, the other value is tied to the code
+   by the correspondence.
+   Assumed, not modelled: options Chown / Mode / ModeStr / Utime unset (C13/C15); no hard-link groups in the source (C13); timestamps are not represented at
    all (the property does not claim them); the landing target's parent exists (prepareTargetDir,
    C13/C15); no I/O errors, no xattr errors, context never cancelled.  A mkdir / create whose
    parent directory is missing in the destination is the error [ENoParent] — the proofs show it
@@ -139,9 +141,25 @@ Fixpoint create_parents (S : list pdir) (fs : dfs) : R :=
    selected, and createParentDirs / copyDirectoryOnly report it then (EDirOverNondir).  Other
    lstat errors are I/O errors (not modelled). *)
 
+(* os.RemoveAll(target): a directory goes with everything below it, a non-directory (a symlink
+   in particular: it is not followed) alone.  [under [] q]: every other path is below the landing
+   target. *)
+Definition under (p q : bytes) : bool :=
+  match p with [] => negb (is_nil q) | _ => has_prefix (p ++ [sep]) q end.
+Definition remove_all (p : bytes) (e : entry) (fs : dfs) : dfs :=
+  if e_dir e then (fun q => if bytes_eqb q p || under p q then None else fs q) else fdel p fs.
+(* removeTargetIfNeeded (AlwaysReplaceExistingDestPaths set): [tfi] = the lstat of the target made
+   at the top of copier.copy; directories are merged, everything else is replaced *)
+Definition remove_target (p : bytes) (srcdir : bool) (tfi : option entry) (fs : dfs) : dfs :=
+  match tfi with
+  | None => fs
+  | Some e => if srcdir && e_dir e then fs else remove_all p e fs
+  end.
+
 Section CopySel.
 Variable pmatch : bytes -> bytes -> bool.
 Variable c : cfg.
+Variable repl : bool.     (* CopyInfo.AlwaysReplaceExistingDestPaths *)
 
 Definition sel_inc (p : bytes) (pi : list bool) : bool * list bool :=
   match c_inc c with Some pats => incr_eval pmatch pats p pi | None => (true, []) end.
@@ -159,9 +177,12 @@ Fixpoint copy_node (dir : bytes) (n : node) (pinc pexc : list bool) (S : list pd
     let re := sel_exc p pexc in
     let include := fst ri && negb (fst re) in
     let it := {| l_st := st; l_ct := ct; l_sel := true |} in
+    (* if include { createParentDirs; removeTargetIfNeeded }: parents first, so that nothing is
+       removed below a parent that turns out not to be a directory *)
     match (if include then create_parents S fs else (fs, S, [], None)) with
     | (fs1, S1, em1, Some e) => (fs1, S1, em1, Some e)
-    | (fs1, S1, em1, None) =>
+    | (fs0, S1, em1, None) =>
+      let fs1 := if repl && include then remove_target p (st_is_dir st0) (fs p) fs0 else fs0 in
       if st_is_dir st0 then
         match (if include then copy_dir_only dir p st fs1 else (fs1, None, false)) with
         | (fs2, Some e, _) => (fs2, S1, em1, Some e)
@@ -211,8 +232,10 @@ Fixpoint copy_forest (dir : bytes) (l : list node) (pinc pexc : list bool) (S : 
 
 (* Copy with a directory as (single) source: copier.copy(src, "", target, false, {}, {}).
    [rootst] = the source directory's own stat; its children are [view].  The target is created
-   if missing (then it gets the source directory's metadata), otherwise left as it is. *)
+   if missing (then it gets the source directory's metadata), otherwise left as it is; with
+   always-replace a non-directory there is removed first. *)
 Definition copy_dir_top (rootst : stat) (view : list node) (fs : dfs) : dfs * list litem * option cerr :=
+  let fs := if repl then remove_target [] true (fs []) fs else fs in
   match (match fs [] with
          | None => Some (fput [] (blank_dir []) fs, true)
          | Some e => if e_dir e then Some (fs, false) else None
@@ -224,22 +247,23 @@ Definition copy_dir_top (rootst : stat) (view : list node) (fs : dfs) : dfs * li
     | (fs2, _, em, None) => ((if created then copy_meta rootst [] fs2 else fs2), em, None)
     end
   end.
-End CopySel.
 
 (* Copy with a non-directory as source: srcComponents = "" — include/exclude patterns are not
    consulted at all *)
 Definition copy_file_top (st : stat) (ct : bytes) (fs : dfs) : dfs * option cerr :=
+  let fs := if repl then remove_target [] false (fs []) fs else fs in
   match fs [] with
   | Some e => if e_dir e then (fs, Some ENondirOverDir) else (fput [] (set_path st [], ct) (fdel [] fs), None)
   | None => (fput [] (set_path st [], ct) fs, None)
   end.
+End CopySel.
 
 Inductive source := SrcDir (rootst : stat) (view : list node) | SrcFile (st : stat) (ct : bytes).
-Definition copy_sel (pmatch : bytes -> bytes -> bool) (c : cfg) (s : source) (fs : dfs)
+Definition copy_sel (pmatch : bytes -> bytes -> bool) (c : cfg) (repl : bool) (s : source) (fs : dfs)
   : dfs * list litem * option cerr :=
   match s with
-  | SrcDir rootst view => copy_dir_top pmatch c rootst view fs
-  | SrcFile st ct => let '(fs', e) := copy_file_top st ct fs in (fs', [], e)
+  | SrcDir rootst view => copy_dir_top pmatch c repl rootst view fs
+  | SrcFile st ct => let '(fs', e) := copy_file_top repl st ct fs in (fs', [], e)
   end.
 
 (* ---------- the specification, independent of the above ----------
